@@ -487,7 +487,33 @@ func c12NewSuppress(w *c12World, force0 bool) (*CPUSuppress, chan struct{}) {
 	return s, stop
 }
 
-var c12Kinds = []string{"shrink", "grow", "shift", "unlimited", "same"}
+var c12Kinds = []string{"shrink", "grow", "shift", "unlimited", "same", "digits"}
+
+// c12DigitsSet looks for a contiguous cpu range whose canonical string is a proper prefix or an
+// extension of the canonical string of old ("0-15" <-> "0-1", "1" <-> "10-11"): the pairs a textual
+// comparison gets wrong.
+func c12DigitsSet(r *kit.Rand, old uint64) (uint64, bool) {
+	cur := c12Ranges(old)
+	var cands []uint64
+	n := len(c12CPUIDs)
+	for i := 0; i < n; i++ {
+		var m uint64
+		for j := i; j < n; j++ {
+			if j > i && c12CPUIDs[j] != c12CPUIDs[j-1]+1 {
+				break
+			}
+			m |= 1 << uint(j)
+			t := c12Ranges(m)
+			if t != cur && (strings.HasPrefix(t, cur) || strings.HasPrefix(cur, t)) {
+				cands = append(cands, m)
+			}
+		}
+	}
+	if cur == "" || len(cands) == 0 {
+		return 0, false
+	}
+	return kit.Pick(r, cands), true
+}
 
 func c12Target(r *kit.Rand, kind int, old, universe uint64) uint64 {
 	switch kind {
@@ -521,6 +547,10 @@ func c12Target(r *kit.Rand, kind int, old, universe uint64) uint64 {
 			return universe
 		}
 		return c12Subset(r, universe)
+	case 5:
+		if t, ok := c12DigitsSet(r, old); ok {
+			return t
+		}
 	}
 	return old
 }
@@ -721,7 +751,7 @@ func TestVerifC12BESuppress(t *testing.T) {
 							startClass = "v2-empty-children"
 						}
 					}
-					kind := r.Weighted(25, 25, 25, 15, 10)
+					kind := r.Weighted(24, 24, 24, 14, 8, 6)
 					kindName = c12Kinds[kind]
 					target = c12Target(r, kind, w.files[0].cur, w.universe)
 				}
